@@ -78,6 +78,7 @@ type Family struct {
 	Run      func(w *W, idx int)
 	Serial   bool // runs alone on the main goroutine (it manages its own goroutines)
 	NoCold   bool // too heavy to be repeated in every cold process variant
+	Early    bool // runs right after the Serial cold-start family, before any parallel family (Serial families only)
 	NoRepeat bool // cases are never re-executed by runCaseRep (a case that is a whole process schedule)
 	Env      int  // > 0: this many freshly drawn cases of the family are re-run under every setting of the env-sweep family (env.go)
 }
